@@ -110,6 +110,9 @@ def random_cases(rng, count, tag, maxpeers=5, length=(20, 60)):
             elif r < 0.83:
                 # the executor's cooperative budget runs out: now, or inside stream k's next poll
                 seq.append(rng.choice(["exhaust", f"window {k} pre exhaust", f"window {k} post exhaust"]))
+            elif r < 0.86:
+                # the application moves to another task / future: later polls come with another waker
+                seq.append(f"setwaker {rng.randint(0, 3)}")
             else:
                 j = rng.randint(1, n)
                 env = rng.choice(["arrive", "arrive", "close", "insert", "remove"])
@@ -118,7 +121,30 @@ def random_cases(rng, count, tag, maxpeers=5, length=(20, 60)):
                         continue
                     inserted.add(j)
                 seq.append(f"window {k} {rng.choice(['pre', 'post'])} {env} {j}")
-        yield Case(f"{tag}#{i}", "fq", materialise(seq + ["poll"] * 8), [tag])
+        # drain: one poll per item that may still be queued, and a few more
+        narr = sum(1 for x in seq if "arrive" in x)
+        yield Case(f"{tag}#{i}", "fq", materialise(seq + ["poll"] * (narr + 8)), [tag])
+
+
+def waker_cases(rng, count, tag):
+    """recv calls made from different tasks / futures (each with its own waker), earlier ones abandoned while
+    parked: the wake-up for later data must go to the LATEST caller's waker"""
+    for i in range(count):
+        n = rng.randint(1, 3)
+        seq = [f"insert {k}" for k in range(1, n + 1)]
+        for _ in range(rng.randint(1, 4)):
+            seq.append(f"setwaker {rng.randint(1, 4)}")
+            seq += ["poll"] * rng.randint(1, 2)          # parks (nothing queued) — then the call is abandoned
+            if rng.random() < 0.4:
+                seq.append(f"arrive {rng.randint(1, n)}")
+            if rng.random() < 0.3:
+                seq.append(f"insert {n + 1 + rng.randint(0, 2)}") if valid(seq + [f"insert {n + 1}"]) else None
+        seq.append(f"setwaker {rng.randint(5, 6)}")
+        seq += ["poll", "poll", f"arrive {rng.randint(1, n)}", "poll", "poll"]
+        seq = [x for x in seq if x]
+        if not valid(seq):
+            continue
+        yield Case(f"{tag}#{i}", "fq", materialise(seq + ["poll"] * 6), [tag])
 
 
 def exhaust_cases(rng, count, tag):
